@@ -2,6 +2,7 @@
 // schedule explorer (hooked build) and the free-running TSan side pass.
 #ifndef VERIF_SCHED_BODIES_H_
 #define VERIF_SCHED_BODIES_H_
+#include <cstdlib>
 
 #include <pthread.h>
 
@@ -184,8 +185,16 @@ inline void run_ops(const std::vector<Op>& ops, Obs* obs) {
         break;
       }
       case Op::LOCAL: {
+#ifndef VERIF_FREE_RUNNING
+        { const char* e = getenv("TZ"); std::string n = e ? e : ""; if (!n.empty() && n[0] == ':') n.erase(0, 1); world().cur_load[slot] = n; world().cur_thread[slot] = pthread_self(); }
+#endif
         cctz::time_zone tz = cctz::local_time_zone();
-        o << "local name=" << tz.name();
+#ifndef VERIF_FREE_RUNNING
+        world().cur_load[slot] = "";
+#endif
+        o << "local name=" << tz.name() << " utc=" << (tz == cctz::utc_time_zone()) << " " << show(tz.lookup(cctz::time_point<cctz::seconds>(cctz::seconds(0))));
+        obs->zones.push_back(tz);
+        { const char* e = getenv("TZ"); std::string n = e ? e : ""; if (!n.empty() && n[0] == ':') n.erase(0, 1); obs->znames.push_back(n); }
         cur = tz;
         break;
       }
@@ -232,7 +241,9 @@ struct Harness {
   std::vector<std::vector<Op>> threads;
   std::vector<std::string> preload;  // names loaded sequentially before the threads start
   bool expect_contention;            // vacuity guard: more than one distinct outcome must occur
+  std::string tz_env = "";           // value of $TZ while this harness runs ("" = "UTC")
 };
+inline void apply_env(const Harness& h) { setenv("TZ", h.tz_env.empty() ? "UTC" : h.tz_env.c_str(), 1); }
 
 inline Op L(const std::string& n) { return Op{Op::LOAD, n, 0}; }
 inline Op TP(long long t) { return Op{Op::LOOKUP_TP, "", t}; }
@@ -258,6 +269,9 @@ inline std::vector<Harness> harnesses() {
                {{L("A"), TP(-1900000000LL), CS(-1900000000LL - 18000)}, {L("A"), TP(-1700000000LL), CS(-1700000000LL - 18000), Op{Op::NEXT, "", -1950000000LL}}}, {}, true});
   h.push_back({"H6b", "far-future (400-year shifted) and near lookups racing on a rule-extended zone",
                {{L("R"), TP(20000000000LL), CS(1206838800LL + 7200 + 5), Op{Op::PREV, "", 1206838800LL}}, {L("R"), TP(1193533200LL - 1), TP(40000000000LL), CS(1193533200LL + 3600)}}, {}, true});
+  // $TZ names a zone served by the data source: local_time_zone() performs a real first load, racing itself and a direct load
+  h.push_back({"H9", "local_time_zone() racing itself and a direct load of the zone $TZ names", {{Op{Op::LOCAL, "", 0}}, {Op{Op::LOCAL, "", 0}}, {L("A")}}, {}, true, "A"});
+  h.push_back({"H9b", "local_time_zone() with $TZ = :B next to loads of other names", {{Op{Op::LOCAL, "", 0}, Op{Op::LOCAL, "", 0}}, {L("A"), Op{Op::LOCAL, "", 0}}}, {}, true, ":B"});
   h.push_back({"H7", "three threads looking up a pre-loaded zone (hint words)",
                {{L("R"), TP(1193533200LL), CS(1193533200LL + 3600)}, {L("R"), TP(1206838800LL + 5), CS(1206838800LL + 7200 + 5)}, {L("R"), TP(3000000000LL), Op{Op::FORMAT, "%Y-%m-%d %H:%M:%S %z", 1193533200LL}}}, {"R"}, false});
   return h;
